@@ -521,7 +521,7 @@ func (broker *baseBroker) readBody(ctx context.Context) (
 				body = &bytes.Buffer{}
 
 				if bodyLength > 0 && !isEOF {
-					body = io.NewSectionReader(readerAt{broker.Reader}, 0, int64(bodyLength))
+					body = &fixedLengthBodyReader{r: broker.Reader, left: bodyLength}
 				}
 			}
 		case StreamBodyType:
@@ -576,12 +576,28 @@ func (broker *baseBroker) readLengthed(context.Context) ([]byte, error) {
 	return b, err
 }
 
-type readerAt struct {
-	io.Reader
+// fixedLengthBodyReader reads the announced length of body; if the stream ends
+// before, returns io.ErrUnexpectedEOF instead of io.EOF.
+type fixedLengthBodyReader struct {
+	r    io.Reader
+	left uint64
 }
 
-func (r readerAt) ReadAt(p []byte, _ int64) (int, error) {
-	n, err := r.Read(p)
+func (r *fixedLengthBodyReader) Read(p []byte) (int, error) {
+	if r.left < 1 {
+		return 0, io.EOF
+	}
+
+	if uint64(len(p)) > r.left {
+		p = p[:r.left] //revive:disable-line:modifies-parameter
+	}
+
+	n, err := r.r.Read(p)
+	r.left -= uint64(n)
+
+	if errors.Is(err, io.EOF) && r.left > 0 {
+		return n, io.ErrUnexpectedEOF
+	}
 
 	return n, err //nolint:wrapcheck //...
 }
